@@ -44,9 +44,11 @@ def run(ctx):
         dd = tod(o) - tod(t)
         ok = ok and (_dt.timedelta.__eq__(diff, _dt.timedelta(microseconds=dd))) and round(t.diff(o, False).total_seconds() * 10 ** 6) == dd
         ok = ok and round(t.diff(o).total_seconds() * 10 ** 6) == abs(dd)
+        nat = _dt.time(o.hour, o.minute, o.second, o.microsecond)
+        ok = ok and _dt.timedelta.__eq__(nat - t, _dt.timedelta(microseconds=dd)) and _dt.timedelta.__eq__(t - nat, _dt.timedelta(microseconds=-dd))
         d1, d2 = abs(tod(o) - tod(t)), abs(tod(p) - tod(t))
         c, f = t.closest(o, p), t.farthest(o, p)
-        ok = ok and tod(c) == (tod(o) if d1 < d2 else tod(p)) and tod(f) == (tod(o) if d1 > d2 else tod(p))
+        ok = ok and abs(tod(c) - tod(t)) == min(d1, d2) and abs(tod(f) - tod(t)) == max(d1, d2) and tod(c) in (tod(o), tod(p)) and tod(f) in (tod(o), tod(p))
         if not ok:
             fails.append({"t": str(t), "o": str(o), "p": str(p), "add": a, "r": str(r), "back": str(b), "diff": repr(diff), "closest": str(c), "farthest": str(f)})
     ctx.record("time_arithmetic", n, n, "Time add/subtract/+-timedelta/diff/closest/farthest on seeded times of day (incl. 00:00:00, 23:59:59.999999) and amounts spanning several days, either sign",
